@@ -33,3 +33,12 @@ claim("C13",
       "Convexity/L-smoothness/prox characterisation enter as hypotheses at the evaluated points; scalar step sizes only in the proof "
       "(array steps bounded); summation of per-step inequalities to the stated rates and convergence of iterates cited.",
       "contract-based deductive verification (per-step contracts with ghost state; real method bodies on Gram-domain vectors; z3 QF_NRA)")
+
+claim("C15",
+      "Counter/frame contracts proved on the real Alg.update/done, every subclass's _done and App.run (loop invariant 0 <= iter <= max_iter, "
+      "one update per iteration, run() returns _output()); no subclass assigns self.iter in _update (static frame obligation); per class "
+      "'tol = 0 early stop => the state is a fixed point of update' by scenario execution of the real _update on abstract vectors; "
+      "power-method normalisation and monotonicity lemma. Two genuine defects are recorded as known findings.",
+      "Gram abstraction; deterministic gradf/prox; definiteness of the norm imposed by substitution; SDMM/GerchbergSaxton tol clauses not decided; "
+      "canonical loops additionally probed natively (bounded).",
+      "contract-based deductive verification (loop invariant + frame obligations + scenario contracts on the real method bodies; z3) with a static AST frame scan")
